@@ -95,7 +95,7 @@ PROP = {
     "explanation": ("C12: DiscoveryDB::{participant_cleanup, participant_is_alive, update_participant, remove_participant} and "
                     "Duration::{from_std, Ord, Add} with the clock as a symbolic variable; MessageReceiver::handle_submessage -> handle_writer_submessage for the SPDP liveness signal (every SPDP DATA, also a repeated one and one addressed to ENTITYID_UNKNOWN, is a sign of life carrying the source prefix; DATA of other writers is not). Tolerance, decided: the comparison is made in RTPS ticks and "
                     "from_std rounds DOWN by less than one tick, so dropped => silence > lease, kept => silence < lease + 2^-32 s (0.233 ns)."),
-    "technique": "Kani/CBMC bounded symbolic model checking of the real DiscoveryDB with Instant::now stubbed by a symbolic clock",
+    "technique": "Kani/CBMC bounded symbolic model checking of the real DiscoveryDB with Instant::now stubbed by a symbolic clock, and of the real MessageReceiver (handle_submessage) for the SPDP liveness signal",
     "level_text": ("SAT-solver verdict over all lease values (full 64-bit width) and all instants inside the stated time bound; "
                    "composition by hand of (a) verdict == tick comparison [DB harnesses] and (b) ticks == floor(elapsed * 2^32) [from_std harnesses]."),
     "level_note": ("Trusted: Kani/CBMC/CaDiCaL, the container shim, the clock stub. The division inside from_std is decided on five sub-second "
